@@ -13,19 +13,58 @@ from ..typed import TypeFacts
 MAIN = "reuse.cli.main.main"
 
 # command -> allowed effects as (function, kind, target text)
+# targets are written with parameters by POSITION (<p0>, <p1>, ...) and locals resolved to their definition,
+# so that renaming a parameter or a local does not change the table
 ALLOWED = {
     "lint": set(),
     "lint-file": set(),
     "supported-licenses": set(),
     "spdx": set(),  # plus the click.File("w") bound to --output (checked separately)
-    "annotate": {("reuse._annotate.add_header_to_file", "open-w", "path")},
-    "convert-dep5": {("reuse.cli.convert_dep5.convert_dep5", "write_text", "project.root / 'REUSE.toml'"),
-                     ("reuse.cli.convert_dep5.convert_dep5", "unlink", "project.root / '.reuse/dep5'")},
-    "download": {("reuse.download.put_license_in_file", "mkdir", "destination.parent"),
-                 ("reuse.download.put_license_in_file", "shutil.copyfile", "destination"),
-                 ("reuse.download.put_license_in_file", "touch", "destination"),
-                 ("reuse.download.put_license_in_file", "open-w", "destination")},
+    "annotate": {("reuse._annotate.add_header_to_file", "open-w", "<p0>")},
+    "convert-dep5": {("reuse.cli.convert_dep5.convert_dep5", "write_text", "<p0>.project.root / 'REUSE.toml'"),
+                     ("reuse.cli.convert_dep5.convert_dep5", "unlink", "<p0>.project.root / '.reuse/dep5'")},
+    "download": {("reuse.download.put_license_in_file", "mkdir", "<p1>.parent"),
+                 ("reuse.download.put_license_in_file", "shutil.copyfile", "<p1>"),
+                 ("reuse.download.put_license_in_file", "touch", "<p1>"),
+                 ("reuse.download.put_license_in_file", "open-w", "<p1>")},
 }
+
+
+def canon_target(repo: Repo, f: str, text: str) -> str:
+    """Target expression with single-assignment locals resolved, `Path(x)` wrappers of parameters removed and
+    parameters replaced by their position."""
+    import copy
+    from ..rules import single_assign_value
+    fn = repo.functions[f]
+    try:
+        node = ast.parse(text, mode="eval").body
+    except SyntaxError:
+        return text
+    params = [a.arg for a in fn.args.posonlyargs + fn.args.args + fn.args.kwonlyargs]
+
+    class T(ast.NodeTransformer):
+        def visit_Name(self, n):
+            if isinstance(n.ctx, ast.Load) and n.id not in params:
+                v = single_assign_value(fn, n.id)
+                if v is not None and not isinstance(v, (ast.Dict, ast.List)):
+                    return self.visit(copy.deepcopy(v))
+            if n.id in params:
+                return ast.Name(id=f"__p{params.index(n.id)}__", ctx=ast.Load())
+            return n
+
+        def visit_Call(self, n):
+            self.generic_visit(n)
+            if isinstance(n.func, ast.Name) and n.func.id == "Path" and len(n.args) == 1 and isinstance(n.args[0], ast.Name) \
+                    and n.args[0].id.startswith("__p"):
+                return n.args[0]
+            if isinstance(n.func, ast.Name) and n.func.id == "_determine_license_suffix_path" and len(n.args) == 1 \
+                    and isinstance(n.args[0], ast.Name) and n.args[0].id.startswith("__p"):
+                return n.args[0]  # FILE.license sibling of the named file
+            return n
+
+    out = ast.unparse(T().visit(node))
+    return re.sub(r"__p(\d+)__", r"<p\1>", out)
+
 READ_ONLY_QUERIES = {
     "VCSStrategyGit": [["ls-files"], ["config"], ["status"], ["rev-parse"]],
     "VCSStrategyHg": [["status"], ["root"]],
@@ -49,7 +88,7 @@ def rule_reach(ck: Check, repo: Repo, cg: CallGraph) -> None:
             for full, node in cg.ext[f]:
                 e = effect_of(full, node)
                 if e and e[0] != "subprocess":
-                    found.append((f, e[0], e[1], node))
+                    found.append((f, e[0], canon_target(repo, f, e[1]), node))
         allowed = ALLOWED.get(name)
         r.instance(f"command:{name}", {"command": name, "reachable_functions": len(parent),
                                        "effects": [f"{f.split('.')[-1]}:{k}({t})" for f, k, t, _ in found]}, q)
@@ -158,6 +197,8 @@ def rule_provenance(ck: Check, repo: Repo) -> None:
     if rt != "[_determine_license_path(path) for path in result if path.is_file()]":
         r.violation("reuse.cli.annotate.all_paths", "returned paths", f"{rt}; directories must be filtered out and .license siblings"
                     " substituted", repo.loc(ap))
+    from . import c03
+    c03.all_paths_rules(r, repo, ck)  # children = covered files (walk from the root) that lie BELOW the directory (path prefix)
     s2 = re.sub(r"\s+", " ", ast.unparse(ap))
     if "else: result = set(paths)" not in s2:
         r.violation("reuse.cli.annotate.all_paths", "non-recursive mode", "must be exactly the named paths", repo.loc(ap))
